@@ -61,12 +61,15 @@ VARIANTS = {
     "real": ["-DCMAKE_BUILD_TYPE=Release", "-DCMAKE_CXX_FLAGS=-D%s" % GUARD],
     "complex": ["-DCMAKE_BUILD_TYPE=Release", "-DCMAKE_CXX_FLAGS=-D%s" % GUARD,
                 "-DPOMEROL_COMPLEX_MATRIX_ELEMENTS=ON"],
+    # what a plain `cmake /repo` gives: no build type, so NDEBUG is not defined and the library's assert()s are active
+    "assert": ["-DCMAKE_BUILD_TYPE=", "-DCMAKE_CXX_FLAGS=-D%s -O1" % GUARD],
     "asan": ["-DCMAKE_BUILD_TYPE=RelWithDebInfo",
              "-DCMAKE_CXX_FLAGS=-D%s -O1 -g -fsanitize=address,undefined -fno-sanitize-recover=undefined -fno-omit-frame-pointer" % GUARD,
              "-DCMAKE_SHARED_LINKER_FLAGS=-fsanitize=address,undefined"],
 }
 VARIANT_CXX = {
     "real": [],
+    "assert": [],
     "complex": [],
     "asan": ["-O1", "-g", "-fsanitize=address,undefined", "-fno-sanitize-recover=undefined", "-fno-omit-frame-pointer"],
 }
